@@ -77,6 +77,41 @@ Proof. exact run_stream_nth_q0. Qed.
 Theorem c17_stream_steps : forall (T n m : nat) (d : list Q) (q : Q) (us : list Q), length (run_stream T n m d q us) = T.
 Proof. exact run_stream_length. Qed.
 
+(* every output bit of a run reads a uniform of its own: qubit i of step t the one at position t(n+m)+i, syndrome
+   bit j of step t the one at t(n+m)+n+j; these positions are pairwise different, so (with independent uniforms) all
+   the qubits and all the flips of all the steps are mutually independent - a flip can be a function of neither the
+   uniform of a qubit nor that of another flip *)
+Theorem c17_error_at : forall (T n m : nat) (d : list Q) (q : Q), ~ q == 0 -> forall (us : list Q) (t i : nat),
+  (T * (n + m) <= length us)%nat -> (t < T)%nat -> (i < n)%nat ->
+  let e := fst (nth t (run_stream T n m d q us) ([], [])) in
+  let l := letter_of (choice d (nth (epos n m t i) us 0)) in
+  nth i e false = xbit l /\ nth (n + i) e false = zbit l.
+Proof. exact run_stream_error_at. Qed.
+Theorem c17_flip_at : forall (T n m : nat) (d : list Q) (q : Q), ~ q == 0 -> forall (us : list Q) (t j : nat),
+  (T * (n + m) <= length us)%nat -> (t < T)%nat -> (j < m)%nat ->
+  nth j (snd (nth t (run_stream T n m d q us) ([], []))) false = flip q (nth (fpos n m t j) us 0).
+Proof. exact run_stream_flip_at. Qed.
+Theorem c17_flip_own_uniform : forall (T n m : nat) (d : list Q) (q : Q), ~ q == 0 -> forall (us us' : list Q) (t j : nat),
+  (T * (n + m) <= length us)%nat -> (T * (n + m) <= length us')%nat -> (t < T)%nat -> (j < m)%nat ->
+  nth (fpos n m t j) us 0 = nth (fpos n m t j) us' 0 ->
+  nth j (snd (nth t (run_stream T n m d q us) ([], []))) false = nth j (snd (nth t (run_stream T n m d q us') ([], []))) false.
+Proof. exact run_stream_flip_own_uniform. Qed.
+Theorem c17_error_own_uniform : forall (T n m : nat) (d : list Q) (q : Q), ~ q == 0 -> forall (us us' : list Q) (t i : nat),
+  (T * (n + m) <= length us)%nat -> (T * (n + m) <= length us')%nat -> (t < T)%nat -> (i < n)%nat ->
+  nth (epos n m t i) us 0 = nth (epos n m t i) us' 0 ->
+  let e := fst (nth t (run_stream T n m d q us) ([], [])) in
+  let e' := fst (nth t (run_stream T n m d q us') ([], [])) in
+  nth i e false = nth i e' false /\ nth (n + i) e false = nth (n + i) e' false.
+Proof. exact run_stream_error_own_uniform. Qed.
+Theorem c17_positions_error_flip_distinct : forall n m s t i j : nat, (i < n)%nat -> (j < m)%nat -> epos n m s i <> fpos n m t j.
+Proof. exact epos_fpos_distinct. Qed.
+Theorem c17_positions_error_injective : forall n m s t i j : nat, (i < n)%nat -> (j < n)%nat ->
+  epos n m s i = epos n m t j -> s = t /\ i = j.
+Proof. exact epos_injective. Qed.
+Theorem c17_positions_flip_injective : forall n m s t i j : nat, (i < m)%nat -> (j < m)%nat ->
+  fpos n m s i = fpos n m t j -> s = t /\ i = j.
+Proof. exact fpos_injective. Qed.
+
 (* non-vacuity: depolarizing p = 3/10, uniforms 0.1, 0.75, 0.85, 0.95 give I X Y Z; XZZXI-like columns *)
 Example c17_ex_generate : generate [7 # 10; 1 # 10; 1 # 10; 1 # 10] [1 # 10; 3 # 4; 17 # 20; 19 # 20] =
   [false; true; true; false;  false; false; true; true].
@@ -87,6 +122,9 @@ Example c17_ex_stream : run_stream 2 1 1 [1 # 2; 1 # 2; 0; 0] (1 # 2) [1 # 4; 3 
   [([false; false], [true]); ([true; false], [false])].
 Proof. vm_compute. reflexivity. Qed.
 
+Example c17_ex_positions : (epos 1 1 0 0, fpos 1 1 0 0, epos 1 1 1 0, fpos 1 1 1 0) = (0, 1, 2, 3)%nat.
+Proof. vm_compute. reflexivity. Qed.
+
 Print Assumptions c17_shape. Print Assumptions c17_local. Print Assumptions c17_independent.
 Print Assumptions c17_preimage. Print Assumptions c17_interval_length. Print Assumptions c17_interval_first.
 Print Assumptions c17_interval_chain. Print Assumptions c17_interval_last. Print Assumptions c17_choice_valid.
@@ -95,3 +133,6 @@ Print Assumptions c17_xz_columns. Print Assumptions c17_letter_columns. Print As
 Print Assumptions c17_flip_never. Print Assumptions c17_flip_always. Print Assumptions c17_flips_local.
 Print Assumptions c17_flips_length. Print Assumptions c17_stream_layout. Print Assumptions c17_stream_layout_q0.
 Print Assumptions c17_stream_steps.
+Print Assumptions c17_error_at. Print Assumptions c17_flip_at. Print Assumptions c17_flip_own_uniform.
+Print Assumptions c17_error_own_uniform. Print Assumptions c17_positions_error_flip_distinct.
+Print Assumptions c17_positions_error_injective. Print Assumptions c17_positions_flip_injective.
